@@ -557,7 +557,12 @@ class ContentSecurityPolicySourceHost(ParsableBase, Serializable):
 
         parser.parse_string_until_separator_or_end('value', ' ')
 
-        return cls(**parser), parser.parsed_length
+        source = cls(**parser)
+        if source.value.host == '':
+            # 'http://:' has an empty host-part, which is not a host-source; its composition would read differently
+            raise InvalidValue(parser['value'], cls, 'value')
+
+        return source, parser.parsed_length
 
     def compose(self):
         composer = ComposerText()
